@@ -596,8 +596,18 @@ def extract_unescape(model, modname='zincparser', fnname='_unescape'):
                     if isinstance(st, ast.If):
                         tt = norm(st.test)
                         mo = re.match(r"^%s and %s == '(.)'$" % (uri, e), tt)
+                        members = None
+                        if isinstance(st.test, ast.BoolOp) and isinstance(st.test.op, ast.And) and len(st.test.values) == 2 \
+                                and norm(st.test.values[0]) == uri and isinstance(st.test.values[1], ast.Compare) \
+                                and norm(st.test.values[1].left) == e and len(st.test.values[1].ops) == 1 \
+                                and isinstance(st.test.values[1].ops[0], ast.In):
+                            members = model.fold(modname, st.test.values[1].comparators[0])
+                            if isinstance(members, (list, tuple, set, frozenset)) and all(isinstance(x, str) and len(x) == 1 for x in members):
+                                members = ''.join(sorted(members))
                         if mo and [norm(x) for x in st.body] == ["%s += %r" % (out, sp.bs)]:
                             sp.uri_keep.add(mo.group(1))
+                        elif isinstance(members, str) and [norm(x) for x in st.body] == ["%s += %r" % (out, sp.bs)]:
+                            sp.uri_keep |= set(members)        # `uri and esc_c in '<chars>'`: the backslash is kept for each
                         else:
                             raise Unsupported('%s: pass-through special case %r' % (fnname, tt))
                     elif norm(st) == '%s += %s' % (out, e):
